@@ -1382,6 +1382,24 @@ func r6ResolveDescendantScan(w *World, r *Report, rule string) {
 	}
 	why := ""
 	for _, l := range loops {
+		// the scan over the children: the innermost loop that asks a child for its name
+		body := l.body()
+		asks, inner := false, false
+		for b := range body {
+			for _, in := range b.Instrs {
+				if c, ok := in.(*ssa.Call); ok && c.Call.IsInvoke() && nm(c.Call.Method) == "YangDataName" {
+					asks = true
+				}
+			}
+		}
+		for _, l2 := range loops {
+			if l2.Header != l.Header && body[l2.Header] {
+				inner = true
+			}
+		}
+		if !asks || inner {
+			continue
+		}
 		mid := loopMidExits(sym, l)
 		if mid == pcZ {
 			continue
